@@ -49,10 +49,30 @@ func VerifC15Load() {
 	if a == nil {
 		return
 	}
-	shape := vstub.NdChoice("shape", 2) // 0: single-writer chain; 1: two writers, local + remote heads
+	// 0: single-writer chain; 1: two writers, local + remote heads;
+	// 2: a replicated another writer's chain and then wrote again (the cached
+	//    remote heads are stale ancestors of the newer local head)
+	shape := vstub.NdChoice("shape", 3)
 	var full []string
 	if shape == 0 {
 		addN(a, t, 'a')
+	} else if shape == 2 {
+		bw, _ := openWith("b", blocks, nil, nil)
+		if bw == nil {
+			return
+		}
+		nb := 1
+		if t >= 4 {
+			nb = 2
+		}
+		addN(bw, nb, 'b')
+		if err := a.Sync(context.Background(), bw.OpLog().Heads().Slice()); err != nil {
+			vstub.Fail("C15 Sync failed")
+			return
+		}
+		vstub.WaitIdle()
+		addN(a, t-nb, 'a')
+		vstub.Cover("stale-remote-heads")
 	} else {
 		bw, _ := openWith("b", blocks, nil, nil)
 		if bw == nil {
@@ -77,7 +97,10 @@ func VerifC15Load() {
 
 	// the limit: per call, or through the MaxHistory option
 	amount := vstub.NdInt("amount")
-	viaOption := vstub.NdChoice("viaMaxHistory", 2) == 1
+	// with several cached heads the load is also run under schedule exploration
+	// (then the limit is passed per call: the option route is independent of scheduling)
+	explore := shape != 0 && vstub.Param("P", 1) > 0 && vstub.NdChoice("explore", 2) == 1
+	viaOption := !explore && vstub.NdChoice("viaMaxHistory", 2) == 1
 	var mh *int
 	callAmount := amount
 	if viaOption {
@@ -88,7 +111,15 @@ func VerifC15Load() {
 	if r == nil {
 		return
 	}
+	// Load starts one goroutine per cached head: with several heads, every
+	// schedule of them with at most P preemptions at visible operations
+	if explore {
+		vstub.ExploreSchedules(vstub.Param("P", 1))
+		vstub.Cover("schedules-explored")
+	}
 	err := r.Load(context.Background(), callAmount)
+	vstub.WaitIdle()
+	vstub.ExploreSchedules(0)
 	vstub.Cover("loaded")
 	vstub.Assert(err == nil, "C15 Load returns no error")
 
